@@ -22,6 +22,8 @@ import (
 func runGoldenMode() {
 	// a valid stream keeps decoding with the current reader whatever its records allocate in total
 	defer arrayRegrowFrameCase("C02")
+	// a dictionary value of any length is admitted by the writer exactly when the specification says so
+	defer dictStringLengthCases("C02")
 	dir := os.Getenv("VERIF_GOLDEN_DIR")
 	if dir == "" {
 		dir = "/verif/corpus/C02"
